@@ -1,0 +1,473 @@
+//go:build verif
+
+/*
+ * Verification hook for property C09 (build tag "verif"): read-only inspection of what a
+ * compiled runnable keeps between runs.
+ *
+ *   VerifC09Snapshot(roots...)  a canonical, line-per-leaf rendering of everything reachable
+ *       from the given values by typed reflection (unexported fields included): scalars,
+ *       strings, pointers (numbered in visiting order, so the rendering does not depend on
+ *       addresses), maps (sorted by key), slices INCLUDING THEIR SPARE CAPACITY (the
+ *       elements between len and cap: an append onto a shared backing array shows there),
+ *       func values by symbol name.  The closures behind which Compile hides the compiled
+ *       record (runnablePacker.wrapRunnableCtx, compileAnyGraph, toGenericRunnable,
+ *       runner.toComposableRunnable, the input/output key wrappers) are followed through
+ *       their captured variables, so the *runner of the graph and of every nested graph is
+ *       part of the rendering.  Synchronisation primitives (sync, sync/atomic) are skipped.
+ *       Two snapshots of the same object taken before and after it has been used must be
+ *       equal: a run owns everything it mutates.
+ *
+ *   VerifC09Project(root)       the compiled record in the terms of the Gallina model
+ *       (coq/Model/IsolationEngine.v): node keys, data / control edges, branches with their
+ *       end nodes, trigger mode, step limit, whether the graph declares state, nested graphs.
+ *
+ * Nothing here is called by eino; nothing is modified.  Add-only; compiled out of every
+ * normal build.
+ */
+
+package compose
+
+import (
+	"fmt"
+	"reflect"
+	"runtime"
+	"runtime/debug"
+	"sort"
+	"strings"
+	"unsafe"
+)
+
+// ---------------------------------------------------------------------------- closures
+
+type verifC09Cap struct {
+	fn  bool         // the captured variable is a func value
+	typ reflect.Type // otherwise: its (pointer) type
+}
+
+// verifC09Closures: for the closures that stand between a public Runnable and the compiled
+// record, the captured variables in the order the compiler lays them out (after the code
+// pointer).  Matched by substring of the symbol name.  Checked by VerifC09SelfTest.
+var verifC09Closures = []struct {
+	name string
+	caps []verifC09Cap
+}{
+	{".wrapRunnableCtx.func", []verifC09Cap{{fn: true}, {fn: true}}},
+	{"compose.compileAnyGraph[", []verifC09Cap{{typ: reflect.TypeOf((*composableRunnable)(nil))}}},
+	{"compose.toGenericRunnable[", []verifC09Cap{{typ: reflect.TypeOf((*composableRunnable)(nil))}}},
+	{"(*runner).toComposableRunnable.func", []verifC09Cap{{typ: reflect.TypeOf((*runner)(nil))}}},
+}
+
+func verifC09FuncName(fv unsafe.Pointer) string {
+	if fv == nil {
+		return "nil"
+	}
+	pc := *(*uintptr)(fv)
+	f := runtime.FuncForPC(pc)
+	if f == nil {
+		return "?"
+	}
+	return f.Name()
+}
+
+// ---------------------------------------------------------------------------- walker
+
+type verifC09Key struct {
+	p unsafe.Pointer
+	t reflect.Type
+	n int
+}
+
+type verifC09Walker struct {
+	lines   []string
+	seen    map[verifC09Key]int
+	runners []*runner
+	full    bool
+}
+
+const verifC09MaxLines = 400000
+
+func (w *verifC09Walker) emit(path, val string) {
+	if len(w.lines) >= verifC09MaxLines {
+		w.full = true
+		return
+	}
+	w.lines = append(w.lines, path+" = "+val)
+}
+
+func (w *verifC09Walker) visit(p unsafe.Pointer, t reflect.Type, n int) (int, bool) {
+	k := verifC09Key{p, t, n}
+	if id, ok := w.seen[k]; ok {
+		return id, true
+	}
+	id := len(w.seen) + 1
+	w.seen[k] = id
+	return id, false
+}
+
+// A value whose type (or pointer type) has this method is rendered by its type only: the
+// harness marks the mutable things it plugs into a compiled object itself (a checkpoint store).
+type verifC09Opaque interface{ VerifC09Opaque() }
+
+var (
+	verifC09OpaqueType = reflect.TypeOf((*verifC09Opaque)(nil)).Elem()
+	verifC09TypeOfType = reflect.TypeOf((*reflect.Type)(nil)).Elem()
+	verifC09RtypePtr   = reflect.TypeOf(reflect.TypeOf(0))
+)
+
+// addressable returns v itself when it can be addressed, otherwise a copy that can.
+func verifC09Addressable(v reflect.Value) reflect.Value {
+	if v.CanAddr() {
+		return v
+	}
+	nv := reflect.New(v.Type()).Elem()
+	nv.Set(v)
+	return nv
+}
+
+func (w *verifC09Walker) walkFunc(path string, fv unsafe.Pointer, depth int) {
+	if fv == nil {
+		w.emit(path, "func nil")
+		return
+	}
+	name := verifC09FuncName(fv)
+	id, seen := w.visit(fv, nil, 0)
+	if seen {
+		w.emit(path, fmt.Sprintf("func ->#%d", id))
+		return
+	}
+	w.emit(path, fmt.Sprintf("func #%d %s", id, name))
+	for _, c := range verifC09Closures {
+		if !strings.Contains(name, c.name) {
+			continue
+		}
+		for i, cp := range c.caps {
+			word := *(*unsafe.Pointer)(unsafe.Add(fv, 8*(i+1)))
+			sub := fmt.Sprintf("%s{%d}", path, i)
+			if cp.fn {
+				w.walkFunc(sub, word, depth+1)
+			} else {
+				if word == nil {
+					w.emit(sub, "nil")
+					continue
+				}
+				pv := reflect.NewAt(cp.typ.Elem(), word)
+				w.walk(sub, pv, depth+1)
+			}
+		}
+		return
+	}
+}
+
+func (w *verifC09Walker) walk(path string, v reflect.Value, depth int) {
+	if w.full {
+		return
+	}
+	if depth > 200 {
+		w.emit(path, "<too deep>")
+		return
+	}
+	if !v.IsValid() {
+		w.emit(path, "<invalid>")
+		return
+	}
+	t := v.Type()
+	if t.Kind() != reflect.Interface && (t.Implements(verifC09OpaqueType) || reflect.PointerTo(t).Implements(verifC09OpaqueType)) {
+		w.emit(path, "<opaque "+t.String()+">")
+		return
+	}
+	switch v.Kind() {
+	case reflect.Bool:
+		w.emit(path, fmt.Sprint(v.Bool()))
+	case reflect.Int, reflect.Int8, reflect.Int16, reflect.Int32, reflect.Int64:
+		w.emit(path, fmt.Sprint(v.Int()))
+	case reflect.Uint, reflect.Uint8, reflect.Uint16, reflect.Uint32, reflect.Uint64:
+		w.emit(path, fmt.Sprint(v.Uint()))
+	case reflect.Uintptr, reflect.UnsafePointer:
+		w.emit(path, "<address>")
+	case reflect.Float32, reflect.Float64:
+		w.emit(path, fmt.Sprint(v.Float()))
+	case reflect.Complex64, reflect.Complex128:
+		w.emit(path, fmt.Sprint(v.Complex()))
+	case reflect.String:
+		s := v.String()
+		if len(s) > 200 {
+			s = fmt.Sprintf("%s...(%d bytes)", s[:200], len(s))
+		}
+		w.emit(path, fmt.Sprintf("%q", s))
+	case reflect.Chan:
+		if v.IsNil() {
+			w.emit(path, "chan nil")
+		} else {
+			w.emit(path, fmt.Sprintf("chan len %d cap %d", v.Len(), v.Cap()))
+		}
+	case reflect.Func:
+		if v.IsNil() {
+			w.emit(path, "func nil")
+			return
+		}
+		av := verifC09Addressable(v)
+		fv := *(*unsafe.Pointer)(unsafe.Pointer(av.UnsafeAddr()))
+		w.walkFunc(path, fv, depth)
+	case reflect.Ptr:
+		if v.IsNil() {
+			w.emit(path, "nil")
+			return
+		}
+		if t == verifC09RtypePtr {
+			w.emit(path, "type "+v.Interface().(reflect.Type).String())
+			return
+		}
+		p := v.UnsafePointer()
+		id, seen := w.visit(p, t, 0)
+		if seen {
+			w.emit(path, fmt.Sprintf("->#%d", id))
+			return
+		}
+		w.emit(path, fmt.Sprintf("&#%d %s", id, t.Elem().String()))
+		if r, ok := v.Interface().(*runner); ok {
+			w.runners = append(w.runners, r)
+		}
+		w.walk(path+"*", v.Elem(), depth+1)
+	case reflect.Interface:
+		if v.IsNil() {
+			w.emit(path, "nil")
+			return
+		}
+		if t == verifC09TypeOfType {
+			w.emit(path, "type "+v.Interface().(reflect.Type).String())
+			return
+		}
+		e := v.Elem()
+		w.walk(path+"("+e.Type().String()+")", e, depth+1)
+	case reflect.Struct:
+		if pk := t.PkgPath(); pk == "sync" || pk == "sync/atomic" || pk == "internal/sync" {
+			w.emit(path, "<"+t.String()+">")
+			return
+		}
+		av := verifC09Addressable(v)
+		if av.NumField() == 0 {
+			w.emit(path, "{}")
+		}
+		for i := 0; i < av.NumField(); i++ {
+			f := av.Field(i)
+			f = reflect.NewAt(f.Type(), unsafe.Pointer(f.UnsafeAddr())).Elem()
+			w.walk(path+"."+t.Field(i).Name, f, depth+1)
+		}
+	case reflect.Array:
+		av := verifC09Addressable(v)
+		for i := 0; i < av.Len(); i++ {
+			e := av.Index(i)
+			e = reflect.NewAt(e.Type(), unsafe.Pointer(e.UnsafeAddr())).Elem()
+			w.walk(fmt.Sprintf("%s[%d]", path, i), e, depth+1)
+		}
+	case reflect.Slice:
+		if v.IsNil() {
+			w.emit(path, "slice nil")
+			return
+		}
+		n, c := v.Len(), v.Cap()
+		id, seen := w.visit(v.UnsafePointer(), t, c)
+		if seen {
+			w.emit(path, fmt.Sprintf("slice len %d cap %d ->#%d", n, c, id))
+			return
+		}
+		w.emit(path, fmt.Sprintf("slice len %d cap %d #%d", n, c, id))
+		if c > 4096 {
+			c = 4096
+			if n > c {
+				n = c
+			}
+		}
+		whole := v.Slice(0, c) // the spare capacity is part of what is kept
+		for i := 0; i < c; i++ {
+			e := whole.Index(i)
+			e = reflect.NewAt(e.Type(), unsafe.Pointer(e.UnsafeAddr())).Elem()
+			if i < n {
+				w.walk(fmt.Sprintf("%s[%d]", path, i), e, depth+1)
+			} else {
+				w.walk(fmt.Sprintf("%s[%d beyond len]", path, i), e, depth+1)
+			}
+		}
+	case reflect.Map:
+		if v.IsNil() {
+			w.emit(path, "map nil")
+			return
+		}
+		id, seen := w.visit(v.UnsafePointer(), t, 0)
+		if seen {
+			w.emit(path, fmt.Sprintf("map ->#%d", id))
+			return
+		}
+		w.emit(path, fmt.Sprintf("map len %d #%d", v.Len(), id))
+		type kv struct {
+			k string
+			v reflect.Value
+		}
+		var kvs []kv
+		it := v.MapRange()
+		for it.Next() {
+			kvs = append(kvs, kv{verifC09KeyString(it.Key()), it.Value()})
+		}
+		sort.SliceStable(kvs, func(i, j int) bool { return kvs[i].k < kvs[j].k })
+		for _, e := range kvs {
+			w.walk(path+"["+e.k+"]", verifC09Addressable(e.v), depth+1)
+		}
+	default:
+		w.emit(path, "<"+t.String()+">")
+	}
+}
+
+// verifC09KeyString renders a map key without addresses.
+func verifC09KeyString(k reflect.Value) string {
+	switch k.Kind() {
+	case reflect.String:
+		return fmt.Sprintf("%q", k.String())
+	case reflect.Bool, reflect.Int, reflect.Int8, reflect.Int16, reflect.Int32, reflect.Int64,
+		reflect.Uint, reflect.Uint8, reflect.Uint16, reflect.Uint32, reflect.Uint64, reflect.Float32, reflect.Float64:
+		return fmt.Sprint(k)
+	case reflect.Interface:
+		if k.IsNil() {
+			return "nil"
+		}
+		return k.Elem().Type().String() + ":" + verifC09KeyString(k.Elem())
+	case reflect.Struct, reflect.Array:
+		sub := &verifC09Walker{seen: map[verifC09Key]int{}}
+		sub.walk("", k, 0)
+		return k.Type().String() + "{" + strings.Join(sub.lines, ";") + "}"
+	case reflect.Ptr:
+		if k.IsNil() {
+			return "nil"
+		}
+		if k.Type() == verifC09RtypePtr {
+			return "type " + k.Interface().(reflect.Type).String()
+		}
+		return "&" + k.Type().Elem().String()
+	}
+	return "<" + k.Type().String() + ">"
+}
+
+func verifC09Walk(roots []any) (w *verifC09Walker, failure string) {
+	w = &verifC09Walker{seen: map[verifC09Key]int{}}
+	old := debug.SetPanicOnFault(true)
+	defer debug.SetPanicOnFault(old)
+	defer func() {
+		if p := recover(); p != nil {
+			failure = fmt.Sprint(p)
+		}
+	}()
+	for i, r := range roots {
+		if r == nil {
+			w.emit(fmt.Sprintf("root%d", i), "nil")
+			continue
+		}
+		w.walk(fmt.Sprintf("root%d", i), verifC09Addressable(reflect.ValueOf(r)), 0)
+	}
+	return w, ""
+}
+
+// VerifC09Snapshot renders everything reachable from the roots (see the file comment).
+// nRunners is the number of compiled graph records (*runner) that were reached.
+func VerifC09Snapshot(roots ...any) (lines []string, nRunners int, failure string) {
+	w, failure := verifC09Walk(roots)
+	if w.full {
+		failure = "snapshot truncated"
+	}
+	return w.lines, len(w.runners), failure
+}
+
+// ---------------------------------------------------------------------------- projection
+
+type VerifC09Node struct {
+	Key string
+	Sub *VerifC09Graph // the node is a nested graph
+}
+
+type VerifC09Branch struct {
+	From string
+	Ends []string // sorted
+}
+
+// VerifC09Graph is the compiled record of one graph in the terms of the model.
+type VerifC09Graph struct {
+	Nodes    []VerifC09Node // sorted by key
+	Data     [][2]string    // data edges (chanCall.writeTo), sorted
+	Ctrl     [][2]string    // control edges (chanCall.controls), sorted
+	Branches []VerifC09Branch
+	Dag      bool
+	Eager    bool
+	MaxSteps int
+	State    bool
+}
+
+func verifC09SortPairs(ps [][2]string) {
+	sort.Slice(ps, func(i, j int) bool {
+		if ps[i][0] != ps[j][0] {
+			return ps[i][0] < ps[j][0]
+		}
+		return ps[i][1] < ps[j][1]
+	})
+}
+
+func verifC09RunnerOf(root any) *runner {
+	w, _ := verifC09Walk([]any{root})
+	if len(w.runners) == 0 {
+		return nil
+	}
+	return w.runners[0]
+}
+
+func verifC09Project(r *runner, depth int) *VerifC09Graph {
+	g := &VerifC09Graph{Dag: r.dag, Eager: r.eager, MaxSteps: r.options.maxRunSteps, State: r.runCtx != nil}
+	add := func(from string, c *chanCall) {
+		for _, t := range c.writeTo {
+			g.Data = append(g.Data, [2]string{from, t})
+		}
+		for _, t := range c.controls {
+			g.Ctrl = append(g.Ctrl, [2]string{from, t})
+		}
+		for _, b := range c.writeToBranches {
+			var ends []string
+			for e := range b.endNodes {
+				ends = append(ends, e)
+			}
+			sort.Strings(ends)
+			g.Branches = append(g.Branches, VerifC09Branch{From: from, Ends: ends})
+		}
+	}
+	add(START, r.inputChannels)
+	keys := make([]string, 0, len(r.chanSubscribeTo))
+	for k := range r.chanSubscribeTo {
+		keys = append(keys, k)
+	}
+	sort.Strings(keys)
+	for _, k := range keys {
+		c := r.chanSubscribeTo[k]
+		add(k, c)
+		n := VerifC09Node{Key: k}
+		if depth < 16 && c.action != nil {
+			if sub := verifC09RunnerOf(c.action); sub != nil && sub != r {
+				n.Sub = verifC09Project(sub, depth+1)
+			}
+		}
+		g.Nodes = append(g.Nodes, n)
+	}
+	verifC09SortPairs(g.Data)
+	verifC09SortPairs(g.Ctrl)
+	sort.SliceStable(g.Branches, func(i, j int) bool {
+		if g.Branches[i].From != g.Branches[j].From {
+			return g.Branches[i].From < g.Branches[j].From
+		}
+		return strings.Join(g.Branches[i].Ends, ",") < strings.Join(g.Branches[j].Ends, ",")
+	})
+	return g
+}
+
+// VerifC09Project finds the compiled record behind root (a Runnable returned by Compile, or
+// anything from which one is reachable) and projects it; nil when none is reachable.
+func VerifC09Project(root any) *VerifC09Graph {
+	r := verifC09RunnerOf(root)
+	if r == nil {
+		return nil
+	}
+	return verifC09Project(r, 0)
+}
